@@ -72,7 +72,11 @@ INFO_NUMBER = ["unitsPerEm", "ascender", "descender", "xHeight", "capHeight",
                "postscriptUnderlinePosition", "postscriptUnderlineThickness"]
 INFO_INTEGER = ["openTypeOS2TypoAscender", "openTypeOS2TypoDescender", "openTypeHheaAscender",
                 "openTypeHheaDescender", "openTypeOS2WinAscent", "openTypeOS2TypoLineGap",
-                "openTypeOS2WeightClass", "openTypeOS2WidthClass"]
+                "openTypeOS2WeightClass", "openTypeOS2WidthClass",
+                "openTypeHheaLineGap", "openTypeHheaCaretOffset", "openTypeOS2StrikeoutSize",
+                "openTypeOS2StrikeoutPosition", "openTypeOS2SubscriptYSize",
+                "openTypeVheaVertTypoAscender", "openTypeOS2WinDescent",
+                "openTypeHeadLowestRecPPEM"]
 INFO_LIST = ["postscriptBlueValues", "postscriptStemSnapH"]
 # OpenType OS/2 usWidthClass percentages (spec table), used when the masters define no class
 WIDTH_CLASS = [(50, 1), (62.5, 2), (75, 3), (87.5, 4), (100, 5), (112.5, 6), (125, 7), (150, 8),
